@@ -239,7 +239,7 @@ def run_shard(ctx, K=None):
                 continue
             gd, pad = gg.embed_wide(core, rng, n)
             wide["cases"] += 1
-            res = run_case(ctx, gd, q, via=rng.choice(("outcomes", "identify", "single", "from_parts")),
+            res = run_case(ctx, gd, q, via=rng.choice(("outcomes", "identify", "single", "from_parts", "str-graph", "str-graph-identify")),
                            cards={w: 1 for w in pad})
             wide["estimands"] += res is not None
             continue
@@ -258,7 +258,7 @@ def run_shard(ctx, K=None):
             live.add(v)
         cards = {v: 1 for v in gd["nodes"] if v not in live}
         wide["cases"] += 1
-        res = run_case(ctx, gd, q, via=rng.choice(("outcomes", "identify", "single", "from_parts")), cards=cards)
+        res = run_case(ctx, gd, q, via=rng.choice(("outcomes", "identify", "single", "from_parts", "str-graph", "str-graph-identify")), cards=cards)
         wide["estimands"] += res is not None
     ctx.extras["wide_graphs"] = wide
     # the same with 64..130 nodes (sparse padding): thresholds on node counts far above the usual sizes
@@ -281,7 +281,7 @@ def run_shard(ctx, K=None):
             extra = [w for w in pad if w not in desc][: rng.randint(21, 40)]
             gd = dict(gd, di=gd["di"] + [[w, y] for w in extra if [w, y] not in gd["di"]])
             q = dict(q, X=sorted(set(q["X"]) | set(extra)))
-        run_case(ctx, gd, q, via=rng.choice(("outcomes", "identify")), cards={w: 1 for w in pad})
+        run_case(ctx, gd, q, via=rng.choice(("outcomes", "identify", "str-graph", "str-graph-identify")), cards={w: 1 for w in pad})
     ctx.extras["huge_graphs"] = huge
     # a planted seven-node family whose trace is line 7 -> line 2 -> line 6 with a tie in the inner topological order
     mon_id.CONFIG["max_nodes_semantic"] = 7
